@@ -87,6 +87,9 @@ def check(run, replay):
     missing = [m for m in T.missing() if m != "filePath"]
     run.extra["missing_c19_options"] = missing
     run.extra["key_covers_c19"] = not missing
+    if missing:
+        # Properties_C19.C19_key_covers_c19 fails as well; the option histories below give the concrete stale run
+        run.notes.append("options of the property list not streamed into toolinfo: %s" % missing)
 
     # ---- X1: toolinfo of the model vs CppCheck::calculateHash
     n = 400 if quick else 20000
